@@ -44,7 +44,7 @@ def flood_scripts(group, outdir, n):
         timely = i % 2 == 1
         plan = [["valid", 2]] if timely else [["silence", 0]]
         lines = [hdr, {"a": "Enter", "c": c, "t": 0}, {"a": "Send", "c": c, "t": 0, "plan": plan}]
-        per = rnd.choice([4, 8, 16])
+        per = [4, 16, 40, 70][i % 4]   # up to 140 ignored datagrams ahead of the genuine reply
         for rel in range(3):
             for _ in range(per):
                 if timely and rel == 2:
